@@ -157,6 +157,46 @@ pub fn run(ctx: &Ctx, st: &mut Stats) {
     if ustride == 1 {
         st.mark_exhaustive("every microsecond interval within one day, both signs: Time::from(interval) and 12:00:00.5 +- interval", "all 86,400,000,000 sub-day interval magnitudes x both signs");
     }
+    cold_threads(st, "history: first call on a fresh thread (sentinel-like operands: -1, 0, 1 ...)", {
+        let mut v = vec![];
+        for t in [0i64, 1, 43_200_000_000, DAY_US - 1] {
+            for b in [-1i64, 0, 1, -2, 2, 999_999, -999_999, 1_000_000, -1_000_000, i32::MAX as i64, i32::MIN as i64] {
+                v.push(C::ab(K::AddSub, t, b));
+                v.push(C::ab(K::Cmp, t, b));
+            }
+        }
+        for b in [-1i64, 0, 1, -2, 2, 999_999, -999_999, 1_000_000, -1_000_000, i32::MAX as i64, i32::MIN as i64] {
+            v.push(C::ab(K::FromDt, b, 0));
+        }
+        v
+    }, check);
+    // whole days plus 2^j microseconds, and multiples of 2^j microseconds plus whole days (a shortcut for "whole days" must
+    // look at every bit)
+    st.stratum("intervals: k days + 2^j us, m*2^j us + k days, both signs, x 3 times", true);
+    for j in 0..=46u32 {
+        for k in [1i64, 2, 7, 100, 407, 408, 99_999] {
+            for m in [1i64, 2, 3] {
+                for iv in [k * DAY_US + (1i64 << j), k * DAY_US - (1i64 << j), m * (1i64 << j) + k * DAY_US] {
+                    if iv.abs() <= DT_LIM {
+                        for t in [0i64, 43_200_500_000, DAY_US - 1] {
+                            st.eval(&C::ab(K::AddSub, t, iv), check);
+                            st.eval(&C::ab(K::AddSub, t, -iv), check);
+                        }
+                        st.eval(&C::ab(K::FromDt, iv, 0), check);
+                        st.eval(&C::ab(K::FromDt, -iv, 0), check);
+                    }
+                }
+            }
+        }
+    }
+    // small magnitudes on both sides of a comparison (32-bit differences wrap around 2^31 us = 35 min 47 s)
+    let nsm = ctx.tier.pick(300, 600_000, 6_000_000);
+    ctx.par(st, "comparisons: time and interval both below 2^32 us in magnitude", false, 0, nsm, |st, _, rng| {
+        let t = rng.range_i64(0, (1i64 << 32).min(DAY_US - 1));
+        let iv = rng.range_i64(-(1i64 << 32), 1i64 << 32);
+        let c = C::ab(K::Cmp, t, iv);
+        st.eval_h(c.hash(77), &c, check);
+    });
     // bit-structured times x bit-structured intervals
     let bts = bit_times();
     let bts_ref = &bts;
